@@ -11,6 +11,8 @@
     "all interleavings" = "all action lists".
   * `singleflight.Group` is modelled by its contract (one registered call per key; join-or-start is atomic;
     the key is deleted and the result handed to everybody who joined in one atomic step).
+  * The background updater (`updateTS`) is an actor too: one tick = `startUpd`, the Range over the map, then the
+    same getTimestamp + setLastTS steps as a foreground call (it publishes through `setLastTS`).
   * Ghost fields (`startClk`, `startPd`, `doneClk`, `clock`) record real time; they never influence a step.
 -/
 import ClientGoVerif.Model.Bytes
@@ -65,6 +67,9 @@ inductive PC
   | gCas       -- `ts > lTso`: about to `CompareAndSwap(last, current)`
   | gDone      -- `GetTimestamp` returned `ts`
   | gFin       -- flight only: key deleted, result delivered
+  -- background updater (`updateTS` → `doUpdate`): one tick
+  | uRange     -- about to `lastTSMap.Range`: with an entry it does getTimestamp + setLastTS, i.e. continues at gCall
+  | uFin       -- the map had no entry: nothing to update
   -- ValidateReadTS
   | vCheck     -- top of the loop: about to read the cached ts
   | vJoin      -- cached ts too old: about to `DoChan` (join or start)
@@ -103,6 +108,7 @@ inductive Act
   | startVal (i : Nat) (rd : Nat)   -- a client calls ValidateReadTS(rd) on thread i
   | pdIssue (i : Nat) (inc : Nat)   -- PD assigns `pdLast + inc + 1` to the request of thread i
   | run (i : Nat) (fresh : Nat)     -- thread i performs its next step (`fresh`: id for a flight it may start)
+  | startUpd (i : Nat)              -- the background updater starts a tick (`doUpdate`) as thread i
   deriving Repr
 
 def St.set (s : St) (i : Nat) (t : Thread) : St :=
@@ -119,6 +125,10 @@ def isDone : PC → Bool
 /-- the step of thread `i` (state `t`) at its current program counter -/
 def runThread (s : St) (i fresh : Nat) (t : Thread) : St :=
   match t.pc with
+  | .uRange =>
+    match s.low with
+    | none => s.set i { t with pc := .uFin }
+    | some _ => s.set i { t with pc := .gCall }
   | .gCall => s.set i { t with pc := .gWait }
   | .gIssued => s.set i { t with pc := .gArrived }
   | .gArrived =>
@@ -183,6 +193,8 @@ def step' (s : St) : Act → St
       { s with pdLast := s.pdLast + inc + 1 }.set i { s.thr i with pc := .gIssued, ts := s.pdLast + inc + 1 }
     else s
   | .run i fresh => runThread s i fresh (s.thr i)
+  | .startUpd i =>
+    if (s.thr i).pc = .idle then s.set i { pc := .uRange, startClk := s.clock, startPd := s.pdLast } else s
 
 /-- one action; the ghost clock counts actions -/
 def step (s : St) (a : Act) : St :=
